@@ -20,9 +20,6 @@ pub fn judge(buf: &[u8]) -> Eval {
     Eval { key: h64(&got), transitions: 1, issues, tags: vec![] }
 }
 
-fn desc(buf: &[u8]) -> serde_json::Value {
-    json!({"calls": [hex(buf)], "allowed": "default"})
-}
 
 const VALS: [u64; 5] = [0, 1, 0x8000_0000_0000_0000, u64::MAX, 0xa5c3_96e1_7b2d_4f08];
 fn field_val(k: usize, width: usize) -> Vec<u8> {
@@ -36,9 +33,26 @@ fn field_val(k: usize, width: usize) -> Vec<u8> {
     v.to_be_bytes()[8 - width..].to_vec()
 }
 
-pub fn spaces(tier: &str) -> Vec<Box<dyn Space>> {
+/// index-addressable generators of V5/V7 buffers (shared with C08, C13 and C16, which judge them with their own oracles)
+#[derive(Clone)]
+pub struct BufGen {
+    pub name: String,
+    pub size: u64,
+    pub gen: std::sync::Arc<dyn Fn(u64) -> Vec<u8> + Send + Sync>,
+}
+fn bg(name: String, size: u64, f: impl Fn(u64) -> Vec<u8> + Send + Sync + 'static) -> BufGen {
+    BufGen { name, size, gen: std::sync::Arc::new(f) }
+}
+impl BufGen {
+    pub fn into_space(self, judge: impl Fn(&[u8]) -> Eval + Send + Sync + 'static) -> Box<dyn Space> {
+        let (g, g2) = (self.gen.clone(), self.gen.clone());
+        space(&self.name, self.size, move |i| judge(&g(i)), move |i| json!({"calls": [short(&g2(i))], "buffer_len": g2(i).len()}))
+    }
+}
+
+pub fn buffers(tier: &str) -> Vec<BufGen> {
     let thorough = tier == "thorough";
-    let mut v: Vec<Box<dyn Space>> = vec![];
+    let mut v: Vec<BufGen> = vec![];
     for version in [5u16, 7] {
         let rs = rec_size(version);
         // (a) walking byte over two byte-distinct base packets (2 records each, followed by a 1-record packet of the
@@ -47,30 +61,20 @@ pub fn spaces(tier: &str) -> Vec<Box<dyn Space>> {
             let mut base = fixed_distinct(version, 2, salt);
             let plen = base.len();
             base.extend(fixed_distinct(12 - version, 1, salt + 5));
-            let b2 = base.clone();
-            v.push(space(
-                &format!("v{}-walking-byte-salt{}", version, salt),
-                ((plen - 2) * 256) as u64,
-                move |i| {
-                    let mut b = base.clone();
-                    b[2 + (i / 256) as usize] = (i % 256) as u8;
-                    judge(&b)
-                },
-                move |i| {
-                    let mut b = b2.clone();
-                    b[2 + (i / 256) as usize] = (i % 256) as u8;
-                    desc(&b)
-                },
-            ));
+            v.push(bg(format!("v{}-walking-byte-salt{}", version, salt), ((plen - 2) * 256) as u64, move |i| {
+                let mut b = base.clone();
+                b[2 + (i / 256) as usize] = (i % 256) as u8;
+                b
+            }));
         }
+        let htab: Vec<(usize, usize)> = if version == 5 { V5_HDR.iter().skip(2).map(|x| (x.1, x.2)).collect() } else { V7_HDR.iter().skip(2).map(|x| (x.1, x.2)).collect() };
         // (b) boundary values on every field, all pairs of fields x 5x5 values, 2-record packet, field in record 1
         {
-            let htab: Vec<(usize, usize)> = if version == 5 { V5_HDR.iter().skip(2).map(|x| (x.1, x.2)).collect() } else { V7_HDR.iter().skip(2).map(|x| (x.1, x.2)).collect() };
             let rtab: Vec<(usize, usize)> = if version == 5 { V5_REC.iter().map(|x| (24 + rs + x.1, x.2)).collect() } else { V7_REC.iter().map(|x| (24 + rs + x.1, x.2)).collect() };
-            let fields: Vec<(usize, usize)> = htab.into_iter().chain(rtab.into_iter()).collect();
+            let fields: Vec<(usize, usize)> = htab.iter().cloned().chain(rtab.into_iter()).collect();
             let nf = fields.len() as u64;
             let base = fixed_distinct(version, 2, 17);
-            let mk = move |i: u64| {
+            v.push(bg(format!("v{}-field-pairs", version), nf * nf * 25, move |i| {
                 let d = digits(i, &[nf, nf, 5, 5]);
                 let mut b = base.clone();
                 let (o1, w1) = fields[d[0] as usize];
@@ -78,54 +82,49 @@ pub fn spaces(tier: &str) -> Vec<Box<dyn Space>> {
                 b[o1..o1 + w1].copy_from_slice(&field_val(d[2] as usize, w1));
                 b[o2..o2 + w2].copy_from_slice(&field_val(d[3] as usize, w2));
                 b
-            };
-            let mk2 = mk.clone();
-            v.push(space(&format!("v{}-field-pairs", version), nf * nf * 25, move |i| judge(&mk(i)), move |i| desc(&mk2(i))));
+            }));
         }
-        // (c) every count 0..=65535 against buffers holding 0, 1, 3 and (thorough) the maximal number of records
+        // (b2) every 16-bit field x all 65536 values; every 32-bit field x powers of two / ten and neighbours
+        {
+            let rtab: Vec<(usize, usize)> = if version == 5 { V5_REC.iter().map(|x| (24 + x.1, x.2)).collect() } else { V7_REC.iter().map(|x| (24 + x.1, x.2)).collect() };
+            let all: Vec<(usize, usize)> = htab.iter().cloned().chain(rtab.into_iter()).collect();
+            let f16: Vec<usize> = all.iter().filter(|f| f.1 == 2).map(|f| f.0).collect();
+            let f32: Vec<usize> = all.iter().filter(|f| f.1 == 4).map(|f| f.0).collect();
+            let base = fixed_distinct(version, 1, 19);
+            let b1 = base.clone();
+            v.push(bg(format!("v{}-every-16-bit-field x all-65536-values", version), f16.len() as u64 * 65536, move |i| {
+                let mut b = b1.clone();
+                let o = f16[(i / 65536) as usize];
+                b[o..o + 2].copy_from_slice(&((i % 65536) as u16).to_be_bytes());
+                b
+            }));
+            let menu: Vec<u32> = crate::alphabet::values(crate::refmodel::Class::Unsigned, 4).into_iter().map(|x| u32::from_be_bytes([x[0], x[1], x[2], x[3]])).collect();
+            let nm = menu.len() as u64;
+            v.push(bg(format!("v{}-every-32-bit-field x threshold-menu", version), f32.len() as u64 * nm, move |i| {
+                let mut b = base.clone();
+                let o = f32[(i / nm) as usize];
+                b[o..o + 4].copy_from_slice(&menu[(i % nm) as usize].to_be_bytes());
+                b
+            }));
+        }
+        // (c) every count 0..=65535 against buffers holding 0, 1, 3, 30 and the maximal number of records
         let maxrec = (65535 - 24) / rs;
-        let held = vec![0usize, 1, 3, 30, maxrec];
-        for h in held {
+        for h in [0usize, 1, 3, 30, maxrec] {
             let base = fixed_distinct(version, h, 3);
-            let b2 = base.clone();
-            v.push(space(
-                &format!("v{}-all-counts-over-{}-records", version, h),
-                65536,
-                move |c| {
-                    let mut b = base.clone();
-                    b[2..4].copy_from_slice(&(c as u16).to_be_bytes());
-                    judge(&b)
-                },
-                move |c| {
-                    let mut b = b2.clone();
-                    b[2..4].copy_from_slice(&(c as u16).to_be_bytes());
-                    json!({"count": c, "buffer_len": b.len(), "buffer_prefix": short(&b)})
-                },
-            ));
+            v.push(bg(format!("v{}-all-counts-over-{}-records", version, h), 65536, move |c| {
+                let mut b = base.clone();
+                b[2..4].copy_from_slice(&(c as u16).to_be_bytes());
+                b
+            }));
         }
         // every materialisable count with byte-distinct records (exact packets)
-        {
-            let top = maxrec;
-            v.push(space(
-                &format!("v{}-materialised-counts-0..={}", version, top),
-                top as u64 + 1,
-                move |n| judge(&fixed_distinct(version, n as usize, 7)),
-                move |n| json!({"records": n, "salt": 7}),
-            ));
-        }
+        v.push(bg(format!("v{}-materialised-counts-0..={}", version, maxrec), maxrec as u64 + 1, move |n| fixed_distinct(version, n as usize, 7)));
         // (d) all 256 protocol numbers at record 0 and record 1
-        {
-            v.push(space(
-                &format!("v{}-all-protocol-numbers", version),
-                512,
-                move |i| {
-                    let mut b = fixed_distinct(version, 2, 23);
-                    b[24 + (i / 256) as usize * rs + 38] = (i % 256) as u8;
-                    judge(&b)
-                },
-                move |i| json!({"protocol_number": i % 256, "record": i / 256}),
-            ));
-        }
+        v.push(bg(format!("v{}-all-protocol-numbers", version), 512, move |i| {
+            let mut b = fixed_distinct(version, 2, 23);
+            b[24 + (i / 256) as usize * rs + 38] = (i % 256) as u8;
+            b
+        }));
         // (e) every proper prefix
         let mut prefix_of = vec![0usize, 1, 2, 3, 30, maxrec];
         if thorough {
@@ -133,11 +132,14 @@ pub fn spaces(tier: &str) -> Vec<Box<dyn Space>> {
         }
         for n in prefix_of {
             let full = fixed_distinct(version, n, 11);
-            let f2 = full.clone();
-            v.push(space(&format!("v{}-every-prefix-of-{}-records", version, n), full.len() as u64, move |cut| judge(&full[..cut as usize]), move |cut| json!({"records": n, "cut": cut, "buffer_prefix": short(&f2[..cut as usize])})));
+            v.push(bg(format!("v{}-every-prefix-of-{}-records", version, n), full.len() as u64, move |cut| full[..cut as usize].to_vec()));
         }
     }
     v
+}
+
+pub fn spaces(tier: &str) -> Vec<Box<dyn Space>> {
+    buffers(tier).into_iter().map(|g| g.into_space(judge)).collect()
 }
 
 pub fn run(tier: &str) -> i32 {
